@@ -1220,7 +1220,7 @@ func VH_C01_long_list() {
 // C13: the first listens on an address the manager has not seen yet arrive at the same time
 // (both kinds): every call returns and the manager is usable afterwards
 func VH_C13_concurrent_first_listens() {
-	for rep := 0; rep < verifRepeat(800); rep++ {
+	for rep := 0; rep < verifRepeat(8000); rep++ {
 		delete(verifBoundPC, "127.0.0.1:9311")
 		lm := NewListenerManager()
 		packet := verifFlag("packet")
@@ -1229,9 +1229,11 @@ func VH_C13_concurrent_first_listens() {
 			callers = 16 // more callers widen the window natively
 		}
 		done := make(chan interface{ Close() error }, callers)
+		start := make(chan struct{})
 		verifSched(1)
 		for i := 0; i < callers; i++ {
 			go func() {
+				<-start // all callers are released together
 				if packet {
 					h, err := lm.ListenPacket("127.0.0.1:9311")
 					verifAssert("C13.first-listens.both-succeed", err == nil)
@@ -1243,7 +1245,8 @@ func VH_C13_concurrent_first_listens() {
 				}
 			}()
 		}
-		verifQuiesce()
+		close(start)
+		verifSettle(func() bool { return len(done) == callers })
 		verifSched(0)
 		verifAssert("C13.first-listens.all-calls-return", len(done) == callers)
 		if len(done) != callers {
@@ -1263,14 +1266,28 @@ func VH_C13_concurrent_first_listens() {
 			}
 			again <- 1
 		}()
-		verifQuiesce()
+		verifSettle(func() bool { return len(again) == 1 })
 		verifAssert("C13.first-listens.manager-usable-afterwards", len(again) == 1)
 		for len(done) > 0 {
 			if h := <-done; h != nil {
 				h.Close()
 			}
 		}
-		verifQuiesce()
+		if !verifNative() {
+			verifQuiesce()
+		}
 	}
 	verifReach("C13.first-listens.done", true)
+}
+
+// verifSettle waits until cond holds: under gosmt by letting everything else run until it blocks,
+// natively by polling for up to two seconds (much cheaper than verifQuiesce in repeated scenarios)
+func verifSettle(cond func() bool) {
+	if !verifNative() {
+		verifQuiesce()
+		return
+	}
+	for i := 0; i < 20000 && !cond(); i++ {
+		time.Sleep(100 * time.Microsecond)
+	}
 }
